@@ -59,7 +59,7 @@ func genConc(g *sim.Stream, tier string) *concProg {
 		p.M = append(p.M, m)
 		p.Total += m
 		p.SendForm = append(p.SendForm, g.Intn(2))
-		p.PSpawn = append(p.PSpawn, g.Intn(5))
+		p.PSpawn = append(p.PSpawn, g.Intn(7))
 	}
 	for i := 0; i < p.R; i++ {
 		p.RecvForm = append(p.RecvForm, g.Intn(4))
@@ -112,6 +112,13 @@ func genConc(g *sim.Stream, tier string) *concProg {
 	for form := 0; form < 4; form++ {
 		w("func gconsumer%d(rid) { consumer%d(rid); cdone <- rid }", form, form)
 	}
+	// a launcher with more than eight locals whose goroutine closes over the
+	// launcher's own variables; it is called once per producer that uses it
+	w("func launch(lid, ln, lform) {")
+	w("  a1 := lid + 1; a2 := a1 + 1; a3 := a2 + 1; a4 := a3 + 1; a5 := a4 + 1; a6 := a5 + 1; a7 := a6 + 1; a8 := a7 + 1; a9 := a8 + 1")
+	w("  myid := lid; myn := ln")
+	w("  go func() { if lform == 0 { producer0(myid, myn) } else { producer1(myid, myn) }; r := myid + (a9 - a9); pdone <- r }()")
+	w("}")
 	w("pts := []")
 	w("cts := []")
 	w("pid := -1")
@@ -150,6 +157,13 @@ func genConc(g *sim.Stream, tier string) *concProg {
 			case 4:
 				w("cl%d := mkp(pid*11+3, %d)", i, p.SendForm[i])
 				w("pts.append([pid, spawn(cl%d, pid, n)])", i)
+			case 5:
+				w("launch(pid, n, %d)", p.SendForm[i])
+			case 6:
+				// a starter thread that spawns the producer and returns at once:
+				// the producer outlives the thread that started it
+				w("st%d := spawn(func(sid, sn) { return spawn(%s, sid, sn) }, pid, n)", i, f)
+				w("pts.append([pid, st%d.wait()])", i)
 			}
 			w("pid = -7")
 			w("n = -9")
@@ -168,7 +182,7 @@ func genConc(g *sim.Stream, tier string) *concProg {
 	w("for _, pt := range pts { waited(0, pt[0], pt[1].wait()) }")
 	ngo := 0
 	for _, f := range p.PSpawn {
-		if f == 2 {
+		if f == 2 || f == 5 {
 			ngo++
 		}
 	}
@@ -531,7 +545,7 @@ func runC10(rc *fw.RunCtx) {
 	}
 	wantTagged := 0
 	for _, f := range prog.PSpawn {
-		if f >= 3 {
+		if f == 3 || f == 4 {
 			wantTagged++
 		}
 	}
@@ -572,7 +586,7 @@ func runC10(rc *fw.RunCtx) {
 	}
 	// 5. wait() values
 	for i := 0; i < prog.S; i++ {
-		if prog.PSpawn[i] != 2 {
+		if prog.PSpawn[i] != 2 && prog.PSpawn[i] != 5 {
 			if v, ok := waitedP[i]; !ok || v != int64(i*7+prog.M[i]) {
 				rc.Violate("wait/value", "producer %d wait() gave %v (present=%v), expected %d", i, v, ok, i*7+prog.M[i])
 				return
